@@ -2,5 +2,15 @@ SPEC_PART = dict(
     props_file="C12_hll",
     legs=[dict(family="hll", focus="layout", oracles=["layout_ok"], profiles=["debug"], mask=[1, 2, 3, 4, 5, 7],
                n_quick=40, n_thorough=500)],
-    trusted=[], assumptions=[], covers="hll: placeholder",
+    trusted=["hll format = my reading of the Java/C++ layout (DESIGN.md Appendix A; Spec/HllLayout.v): 8/12/40-byte preambles, "
+             "flags EMPTY 4 / COMPACT 8 / OUT_OF_ORDER 16, mode byte = curMode | tgtType << 2, coupons value << 26 | slot, Hll4 low "
+             "nibble = even slot with 15 = exception, Hll6 slot s at bit 6s, compact aux = auxCount coupons; no upstream files offline"],
+    assumptions=[],
+    covers="hll: the translated constants are the specification's (c12_hll_layout_glue: serial version, family id, preamble ints, "
+           "flag masks, mode and type codes, key bits, AUX_TOKEN); PARTIAL: the conformance theorem spec_decode (serialize s) = abs s "
+           "is not proved for HLL, it is CHECKED on every image the crate emits. Tie: Spec/HllLayout.v hll_spec_decode (written from "
+           "the format description, independent of the model) applied to the crate's serialize() output must give exactly the Spec "
+           "state of the stream: lg_k, type, mode as a function of the number of distinct coupons, the coupon set / the per-slot "
+           "maxima, cur_min = smallest register, num_at_cur_min, the exceptions, the COMPACT flag on array images (repaired defect "
+           "C12-hll-array-compact-flag), and the exact image size.",
 )
